@@ -268,7 +268,7 @@ def run_link(s, j):
 
     from .values import implies
 
-    cur().assume(implies(both(V._cmp(">=", j, 0), V._cmp("<", j, s.length)), forall(lo, hi, lambda p: same(s.expand(p), v))))
+    cur().assume(implies(both(V._cmp(">=", j, 0), V._cmp("<", j, s.length)), forall(lo, hi, lambda p: same(s.expand(p), v), check_empty=False)))
 
 
 def _tuple_expand(items):
